@@ -14,6 +14,7 @@ import (
 	"net/textproto"
 	"strconv"
 	"strings"
+	"time"
 )
 
 // ServerConnection represents the server part of this app. It waits for the client announcement
@@ -41,6 +42,13 @@ func NewServerConnection(c net.Conn, manager cert.TlsConfig, secure bool) (*Serv
 		connection.securityTech = SecurityNone
 	}
 
+	// A peer that connects and never completes the handshake (a stalled client, or a stray datagram of a dead
+	// session that makes the packet listener accept a "new" connection) must not hold this goroutine and the
+	// connection for ever. Same bound as on the client side.
+	if err := c.SetDeadline(time.Now().Add(HandshakeTimeout)); err != nil {
+		log.WithError(err).Debugf("Could not set the handshake deadline: %v", err)
+	}
+
 	log.Debugf("[Server] SocketAce handshake...")
 	if err := connection.handshake(conn); err != nil {
 		return nil, errors.Wrapf(err, "Could not negotiate protocol version: %v", err)
@@ -51,6 +59,10 @@ func NewServerConnection(c net.Conn, manager cert.TlsConfig, secure bool) (*Serv
 		return nil, errors.Wrapf(err, "Could not upgrade connection: %v", err)
 	} else {
 		connection.Connection = server
+	}
+
+	if err := c.SetDeadline(time.Time{}); err != nil {
+		log.WithError(err).Debugf("Could not clear the handshake deadline: %v", err)
 	}
 
 	return connection, nil
